@@ -70,7 +70,7 @@ func childMain(args []string) {
 	var wg sync.WaitGroup
 	for w := 0; w < *workers; w++ {
 		wg.Add(1)
-		go func() {
+		go func(w int) {
 			defer wg.Done()
 			conn, err := net.Dial("unix", *sock)
 			if err != nil {
@@ -82,6 +82,9 @@ func childMain(args []string) {
 			dec := json.NewDecoder(conn)
 			var last *Result
 			for {
+				// the parent closes the previous case's listeners and opens the next
+				// one's while this request is pending: the marker bounds that moment
+				marker(fmt.Sprintf("WORKER %d NEXT\n", w))
 				if err := enc.Encode(Req{Op: "next", Res: last}); err != nil {
 					fmt.Fprintln(os.Stderr, "child: rpc write:", err)
 					os.Exit(4)
@@ -94,9 +97,9 @@ func childMain(args []string) {
 				if job.Done {
 					return
 				}
-				last = runJob(&job, roots)
+				last = runJob(&job, roots, w)
 			}
-		}()
+		}(w)
 	}
 	wg.Wait()
 }
@@ -124,13 +127,13 @@ func buildQuery(id int) []byte {
 	return b.Bytes()
 }
 
-func runJob(job *Job, roots *x509.CertPool) *Result {
+func runJob(job *Job, roots *x509.CertPool, w int) *Result {
 	res := &Result{ID: job.ID}
 	done := make(chan struct{})
 	go func() {
 		defer close(done)
-		marker(fmt.Sprintf("CASE %d BEGIN\n", job.ID))
-		defer marker(fmt.Sprintf("CASE %d END\n", job.ID))
+		marker(fmt.Sprintf("CASE %d BEGIN W%d\n", job.ID, w))
+		defer marker(fmt.Sprintf("CASE %d END W%d\n", job.ID, w))
 		u, err := upstream.NewUpstream(job.Addr, upstream.Opt{
 			DialAddr:     job.DialAddr,
 			Socks5:       job.Socks5,
